@@ -2,7 +2,7 @@
 for the input-distribution histogram (`excluded_float_arith`) and as the oracle of search_failing.  The judging oracle of
 the check itself is `check_spec` evaluated inside Coq; this mirror never replaces it.
 
-Case format (JSON): template tree `tpl`, parameters `params` {name: {'ty': 'int'|'time'|'float', 'v': str}}.
+Case format (JSON): template tree `tpl`, parameters `params` {name: {'ty': 'int'|'time'|'float'|'npint'|'npuint'|'npfloat'|'frac'|'mpq', 'v': str}}.
 Expressions: {'lit': int} | {'flit': 'decimal string'} | {'var': name} | {'op': 'add'|'sub'|'mul'|'max', 'a':, 'b':}
              | {'op': 'divk', 'a':, 'k': int}
 """
@@ -21,7 +21,7 @@ class Undefined(Exception):
 
 def param_value(p):
     """-> (tag, value used as a time, value used in comparisons)"""
-    if p['ty'] == 'int':
+    if p['ty'] in ('int', 'npint', 'npuint'):        # numpy.int64 / numpy.uint8 scalars
         v = F(int(p['v']))
         return ('int', v, v)
     if p['ty'] in ('time', 'frac', 'mpq'):
